@@ -210,10 +210,18 @@ Proof.
       | _ => r_lex1 h end).
 Qed.
 
+(* the capacity test only ever replaces the string by the empty one *)
+Lemma cap_string_rb : forall n s r, rbS n s r -> rbS n s (cap_string r).
+Proof.
+  intros n s [[e a] s'] H. unfold rbS, cap_string in *. cbn [fst snd] in *.
+  destruct e; try exact H. destruct (too_long a); cbn [fst snd length]; lia.
+Qed.
+
 Lemma parse_quoted_string_rb : forall cf fuel s, rbS 0 s (parse_quoted_string cf fuel s).
 Proof.
   intros cf fuel s. unfold parse_quoted_string.
   rb_go ltac:(fun h => lazymatch h with
+      | cap_string _ => apply cap_string_rb
       | quoted_loop cf fuel ?st ?c ?a ?X =>
           pose proof (quoted_loop_rb cf fuel st c a X);
           destruct (quoted_loop cf fuel st c a X) as [[? ?] ?]
@@ -237,6 +245,7 @@ Lemma parse_non_quoted_string_rb : forall fuel s, rbS 0 s (parse_non_quoted_stri
 Proof.
   intros fuel s. unfold parse_non_quoted_string.
   rb_go ltac:(fun h => lazymatch h with
+      | cap_string _ => apply cap_string_rb
       | non_quoted_loop fuel ?a ?c ?X =>
           let L := fresh "L" in
           assert (L : latched X) by (eapply latched_intro; [eassumption | first [assumption | lia]]);
@@ -295,12 +304,14 @@ Proof.
   - apply is_quote_nz in Q. unfold parse_quoted_string. rewrite (current_some _ _ Cc).
     assert (L : latched s1) by (eapply latched_intro; eassumption).
     pose proof (move_lt s1 L) as M.
-    pose proof (quoted_loop_mf cf fuel c cp_init [] (move s1)) as [[_ X] _]. intros _. lia.
+    pose proof (quoted_loop_mf cf fuel c cp_init [] (move s1)) as [[_ X] _]. intros _.
+    rewrite cap_string_state. lia.
   - unfold parse_non_quoted_string. rewrite (current_some _ _ Cc).
     destruct (can_be_in_non_quoted_string c) eqn:K; [|cbn [fst]; discriminate].
     apply cbinqs_nz in K.
     assert (L : latched s1) by (eapply latched_intro; eassumption).
-    intros H. pose proof (non_quoted_loop_lt fuel [] c s1 L H). lia.
+    intros H. apply cap_string_ok_fst in H. rewrite cap_string_state.
+    pose proof (non_quoted_loop_lt fuel [] c s1 L H). lia.
 Qed.
 
 Ltac r_lex2 h :=
